@@ -229,6 +229,7 @@ class Group:
     native_tus: Optional[List[str]] = None     # TUs for the native replay build (default: tus)
     min_obligations: int = 1
     solver: Optional[str] = None               # e.g. "--sat-solver cadical"
+    remove_bodies: List[str] = field(default_factory=list)   # function bodies dropped BEFORE dfcc (functions outside the group, unreachable after call replacement)
     assert_mode: bool = False                  # compile with -DVP_ASSERT_MODE: contract text assumed/asserted by the harness, no dfcc instrumentation
     pre_unwindset: Dict[str, int] = field(default_factory=dict)   # loops unwound by goto-instrument BEFORE dfcc (contract-less loops enclosing contracted ones)
 
@@ -321,6 +322,16 @@ class Runner:
         if g.assert_mode:
             g.enforce = []
         need_dfcc = g.enforce or g.enforce_rec or g.replace or g.loop_contracts
+        if g.remove_bodies:
+            gbr = os.path.join(gdir, "hr.gb")
+            cmd = ["goto-instrument"] + [x for f in g.remove_bodies for x in ("--remove-function-body", f)] + [gb0, gbr]
+            res.cmds.append(" ".join(cmd))
+            rc, so, se, dt, to = _run(cmd, timeout=600, mem_gb=g.mem_gb)
+            res.t_instrument += dt
+            if rc != 0 or to:
+                res.state, res.reason = "error", "EXTRACTION-BROKEN: removing function bodies failed: " + (so + se)[-1500:]
+                return None
+            gb0 = gbr
         if g.pre_unwindset:
             gbu = os.path.join(gdir, "hu.gb")
             cmd = ["goto-instrument", "--unwindset", ",".join("%s:%d" % kv for kv in sorted(g.pre_unwindset.items())), "--unwinding-assertions", gb0, gbu]
